@@ -25,6 +25,7 @@ Definition concretize (typed : bool) (issued : list handle) (o : xop) : op :=
   | XoClone k => OClone (resolve issued k)
   | XoSet k c v => OGetMut (resolve issued k) c (Some v)
   | XoDep c m => ODep c m
+  | XoBuild tid target assigns removes => OBuild tid (match target with Some k => Some (resolve issued k) | None => None end) assigns removes
   end.
 
 Definition mstep (typed : bool) (x : mst * list handle) (o : xop) : res (mst * list handle) :=
